@@ -45,42 +45,71 @@ CLAUSES = ["lat_enclosure", "lon_enclosure", "enclosed_pole", "lat_tight", "lon_
 # ----------------------------------------------------------------------------------------
 
 def xyz_of(lon_deg, lat_deg):
+    if abs(lat_deg) == 90.0:        # the pole itself, not (6e-17, 0, 1)
+        return np.array([0.0, 0.0, 1.0 if lat_deg > 0 else -1.0])
     lo, la = math.radians(lon_deg), math.radians(lat_deg)
     return np.array([math.cos(la) * math.cos(lo), math.cos(la) * math.sin(lo), math.sin(la)])
 
 
 def lonlat_of(p):
     p = p / np.linalg.norm(p)
-    return math.degrees(math.atan2(p[1], p[0])), math.degrees(math.asin(max(-1.0, min(1.0, p[2]))))
+    return math.degrees(math.atan2(p[1], p[0])), math.degrees(math.atan2(p[2], math.hypot(p[0], p[1])))
 
 
 def is_pole_corner(c):
     return abs(c[1]) == 90.0
 
 
-def convex_ccw(face, margin=1e-9):
-    """every corner strictly left of every edge it does not touch; consecutive corners distinct;
-    pole corners only as exact poles"""
+def angdist(a, b):
+    return 2.0 * math.asin(min(1.0, 0.5 * float(np.linalg.norm(a - b))))
+
+
+def diameter(P):
+    """largest angular distance between two corners (unit vectors)"""
+    return max(angdist(P[i], P[j]) for i in range(len(P)) for j in range(i))
+
+
+def edge_normal(a, b):
+    """unit normal of the plane of the arc a -> b, computed as a x (b - a): no cancellation for
+    edges of any length"""
+    n = np.cross(a, b - a)
+    return n / np.linalg.norm(n)
+
+
+def convex_ccw(face, margin=None):
+    """every corner strictly left of every edge it does not touch (margin relative to the face),
+    no edge shorter than 1 % of the diameter or close to 180 degrees"""
     P = [xyz_of(*c) for c in face]
     n = len(P)
+    d = diameter(P)
+    mg = max(2e-14, 1e-9 * d) if margin is None else margin
     for i in range(n):
         a, b = P[i], P[(i + 1) % n]
-        nrm = np.cross(a, b)
-        if np.linalg.norm(nrm) < 1e-4:      # edge shorter than ~1e-4 rad or ~180°
+        L = float(np.linalg.norm(a - b))
+        if L < 1e-2 * d or L < 1e-9 or float(np.dot(a, b)) < -0.99:
             return False
+        nrm = edge_normal(a, b)
         for j in range(n):
             if j == i or j == (i + 1) % n:
                 continue
-            if float(np.dot(nrm, P[j])) <= margin:
+            if float(np.dot(nrm, P[j] - a)) <= mg:
                 return False
     return True
 
 
 def pole_dets(face):
+    """(north, south) margins: smallest sine of the signed distance of the pole from the edges'
+    great circles (positive for every edge <=> that pole is inside the counter-clockwise face)"""
     P = [xyz_of(*c) for c in face]
     n = len(P)
-    dn = [float(np.cross(P[i], P[(i + 1) % n])[2]) for i in range(n)]
+    dn = [float(edge_normal(P[i], P[(i + 1) % n])[2]) for i in range(n)]
     return min(dn), min(-d for d in dn)     # north margin, south margin
+
+
+def pole_margin_of(face):
+    """how far (sine of the angle) the pole has to stay from every edge's great circle to count as
+    decided: relative to the size of the face"""
+    return min(POLE_MARGIN, max(1e-13, 1e-4 * diameter([xyz_of(*c) for c in face])))
 
 
 def lon_extent(face):
@@ -91,15 +120,15 @@ def lon_extent(face):
     return 360.0 - max(gaps)
 
 
-def admissible(face, pole_margin=None, convex_margin=1e-9):
-    """inside the property's quantifier, with a margin from its borders"""
-    pm = POLE_MARGIN if pole_margin is None else pole_margin
+def admissible(face, pole_margin=None, convex_margin=None):
+    """inside the property's quantifier, with a margin (relative to the face) from its borders"""
     if not (3 <= len(face) <= 8) or not convex_ccw(face, convex_margin):
         return False
+    pm = pole_margin_of(face) if pole_margin is None else pole_margin
     mn, ms = pole_dets(face)
     has_pc = any(is_pole_corner(c) for c in face)
-    for c in face:      # corners very close to a pole but not on it: latitude ill-conditioned, lat snap zone
-        if not is_pole_corner(c) and abs(c[1]) > 90.0 - 0.06:
+    for c in face:      # a corner closer than 1e-8 rad to a pole but not on it is not a distinct position
+        if not is_pole_corner(c) and 90.0 - abs(c[1]) < 6e-7:
             return False
     if not has_pc and (abs(mn) <= pm or abs(ms) <= pm):
         return False
@@ -109,24 +138,29 @@ def admissible(face, pole_margin=None, convex_margin=1e-9):
     return True
 
 
-def gnomonic(rng, centre, n, rad, ecc=None):
-    """convex planar polygon (points of an ellipse) in the tangent plane at `centre`, projected"""
+def gnomonic(rng, centre, n, rad, ecc=None, rot=None):
+    """convex planar polygon (points of an ellipse with half-axes tan(rad), ecc*tan(rad), the long
+    axis turned by `rot` from the east direction) in the tangent plane at `centre`, projected"""
     c = xyz_of(*centre)
     a = np.cross([0.0, 0.0, 1.0], c)
     if np.linalg.norm(a) < 1e-6:
         a = np.array([1.0, 0.0, 0.0])
     a = a / np.linalg.norm(a)
     b = np.cross(c, a)
-    angs = sorted(rng.uniform(0, TWO_PI) for _ in range(n))
+    if rng.random() < 0.5:
+        angs = sorted(rng.uniform(0, TWO_PI) for _ in range(n))
+    else:       # jittered equal spacing: no two corners close together
+        t0 = rng.uniform(0, TWO_PI)
+        angs = sorted((t0 + TWO_PI * (k + rng.uniform(-0.35, 0.35)) / n) % TWO_PI for k in range(n))
     ea = math.tan(rad)
     eb = ea * (ecc if ecc is not None else rng.uniform(0.3, 1.0))
-    rot = rng.uniform(0, math.pi)
+    rot = rng.uniform(0, math.pi) if rot is None else rot
     out = []
     for t in angs:
         u, v = ea * math.cos(t), eb * math.sin(t)
         u, v = u * math.cos(rot) - v * math.sin(rot), u * math.sin(rot) + v * math.cos(rot)
         lo, la = lonlat_of(c + u * a + v * b)
-        out.append((round(lo, 9), round(la, 9)))
+        out.append((round(lo, 13), round(la, 13)))
     return out
 
 
@@ -135,11 +169,42 @@ def rotate(rng, face):
     return face[k:] + face[:k]
 
 
+# ---- SIZE: a random dimension of every face ---------------------------------------------------
+
+def draw_size(rng, big_only=False):
+    """-> (radius in rad | None = the class's classic size, ecc, rot).  Diameters log-uniform from
+    ~1e-7 rad (sub-metre) to ~1.2 rad; anisotropic faces down to a thin extent of ~1e-6 rad (and
+    proportionally thinner tiny faces), the thin direction along latitude, along longitude or
+    oblique."""
+    if rng.random() < 0.35:
+        return None, None, None
+    lo = -1.7 if big_only else -7.0
+    d = 10 ** rng.uniform(lo, math.log10(1.2))
+    if rng.random() < 0.5:
+        ecc = rng.uniform(0.3, 1.0)
+    else:
+        ecc = 10 ** rng.uniform(-1.3 if big_only else -5.5, 0.0)
+        ecc = max(ecc, min(1.0, 3e-8 / d), 1e-6 / d if d > 1e-4 else 0.0)
+    rot = rng.choice([0.0, math.pi / 2, rng.uniform(0, math.pi)])
+    return d / 2, min(1.0, ecc), rot
+
+
+def size_bucket(d):
+    e = math.floor(math.log10(max(d, 1e-12)))
+    return "size:1e%d..1e%d" % (e, e + 1)
+
+
 # ---- generator classes -------------------------------------------------------------------
 
-def gen_generic(rng):
-    return gnomonic(rng, (rng.uniform(-180, 180), math.degrees(math.asin(rng.uniform(-0.99, 0.99)))),
-                    rng.randint(3, 8), rng.choice([0.02, 0.1, 0.3, 0.5]) * rng.uniform(0.5, 1.0))
+def anywhere(rng):
+    return rng.uniform(-180, 180), math.degrees(math.asin(rng.uniform(-0.99, 0.99)))
+
+
+def gen_generic(rng, size):
+    rad, ecc, rot = size
+    if rad is None:
+        return gnomonic(rng, anywhere(rng), rng.randint(3, 8), rng.choice([0.02, 0.1, 0.3, 0.5]) * rng.uniform(0.5, 1.0))
+    return gnomonic(rng, anywhere(rng), rng.randint(3, 8), rad, ecc, rot)
 
 
 def gen_bulge(rng):
@@ -158,69 +223,129 @@ def gen_bulge(rng):
     return [(round(((lo + 180) % 360) - 180, 9), round(la, 9)) for lo, la in f]
 
 
-def gen_meridian(rng):
+def gen_meridian(rng, size):
     """faces crossing the antimeridian or the prime meridian (including ones on the equator)"""
-    lon0 = rng.choice([180.0, 0.0]) + rng.uniform(-3, 3)
+    rad, ecc, rot = size
     lat0 = rng.choice([rng.uniform(-80, 80), rng.uniform(-4, 4)])
-    return gnomonic(rng, (lon0, lat0), rng.randint(3, 8), rng.uniform(0.05, 0.4))
+    if rad is None:
+        return gnomonic(rng, (rng.choice([180.0, 0.0]) + rng.uniform(-3, 3), lat0), rng.randint(3, 8), rng.uniform(0.05, 0.4))
+    # the centre within half a radius of the seam, so that the face really crosses it
+    off = math.degrees(rad) * rng.uniform(-0.5, 0.5) / max(math.cos(math.radians(lat0)), 0.1)
+    return gnomonic(rng, (rng.choice([180.0, 0.0]) + off, lat0), rng.randint(3, 8), rad, ecc, rot)
 
 
-def gen_pole_corner(rng):
+def gen_near_pole(rng, size):
+    """the pole is outside the face but only a few face diameters away"""
+    rad, ecc, rot = size
+    if rad is None:
+        rad, ecc, rot = 10 ** rng.uniform(-6.5, -0.7), rng.uniform(0.3, 1.0), None
+    colat = min(rad * rng.uniform(1.3, 6.0), 0.5)
+    return gnomonic(rng, (rng.uniform(-180, 180), rng.choice([1, -1]) * (90.0 - math.degrees(colat))), rng.randint(3, 8),
+                    rad, ecc, rot)
+
+
+def gen_equator_corner(rng, size):
+    """one or two corners at latitude exactly 0, the face in one hemisphere; any longitude, also across
+    longitude 0 and 180"""
+    rad, _, _ = size
+    w = math.degrees(2 * rad) if rad is not None else rng.uniform(2, 40)       # extent in longitude (deg)
+    h = w * rng.choice([rng.uniform(0.3, 1.0), 10 ** rng.uniform(-3, 0)])        # extent in latitude
+    w, h = min(w, 60.0), min(h, 60.0)
+    sgn = rng.choice([1, -1])
+    lon0 = rng.choice([rng.uniform(-180, 180), rng.uniform(-w / 2, w / 2), 180.0 + rng.uniform(-w / 2, w / 2), 300.0])
+    k = rng.choice([1, 2])
+    m = rng.randint(1, 4) if k == 2 else rng.randint(2, 5)
+    ts = sorted(rng.uniform(0.12, 0.88) * math.pi for _ in range(m))
+    if k == 2:
+        f = [(lon0 + w / 2, 0.0)] + [(lon0 + w / 2 * math.cos(t), h * math.sin(t)) for t in ts] + [(lon0 - w / 2, 0.0)]
+    else:
+        f = [(lon0 + rng.uniform(-0.3, 0.3) * w, 0.0)] + [(lon0 + w / 2 * math.cos(t), h * (0.35 + math.sin(t))) for t in ts]
+    if sgn < 0:
+        f = [(lo, -la) for lo, la in f][::-1]
+    return [(round(((lo + 180) % 360) - 180, 13), 0.0 if la == 0 else round(la, 13)) for lo, la in f], f"{'north' if sgn > 0 else 'south'}-{k}"
+
+
+def gen_pole_corner(rng, size):
+    rad, _, _ = size
     sgn = rng.choice([1, -1])
     n = rng.randint(3, 8)
     lo0 = rng.uniform(0, 360)
     span = rng.uniform(10, 160)
     lons = sorted(lo0 + rng.uniform(0, span) for _ in range(n - 1))
-    base = rng.uniform(20, 85)
-    ring = [(l, base + rng.choice([0.0, rng.uniform(-4, 4)])) for l in lons]
+    if rad is None:
+        base = rng.uniform(20, 85)
+        ring = [(l, base + rng.choice([0.0, rng.uniform(-4, 4)])) for l in lons]
+    else:       # a sliver of that size hanging from the pole
+        col = math.degrees(min(2 * rad, 1.2))
+        ring = [(l, 90.0 - col * rng.choice([1.0, rng.uniform(0.8, 1.0)])) for l in lons]
     mode = rng.choice(["adjacent", "zero", "random"])
     plon = {"adjacent": ring[0][0], "zero": 0.0, "random": rng.uniform(0, 360)}[mode]
     f = ring + [(plon, 90.0)]
     if sgn < 0:
         f = [(lo, -la) for lo, la in f][::-1]
-    return [(round(((lo + 180) % 360) - 180, 9), round(la, 9)) for lo, la in f], mode
+    return [(round(((lo + 180) % 360) - 180, 13), round(la, 13)) for lo, la in f], mode
 
 
-def gen_pole_enclosed(rng):
+def gen_pole_enclosed(rng, size):
+    rad, ecc, rot = size
     sgn = rng.choice([1, -1])
     if rng.random() < 0.5:
-        f = gnomonic(rng, (rng.uniform(-180, 180), sgn * rng.uniform(80, 90)), rng.randint(3, 8), rng.uniform(0.25, 0.7))
+        if rad is None:
+            f = gnomonic(rng, (rng.uniform(-180, 180), sgn * rng.uniform(80, 90)), rng.randint(3, 8), rng.uniform(0.25, 0.7))
+        else:   # the pole somewhere inside a face of that size
+            rad = min(rad, 0.6)
+            e = max(ecc, 0.05)
+            f = gnomonic(rng, (rng.uniform(-180, 180), sgn * (90.0 - math.degrees(rad * e * rng.uniform(0.0, 0.6)))),
+                         rng.randint(3, 8), rad, e, rot)
         return f, "offcentre"
     n = rng.randint(3, 8)
     off = rng.choice([0.0, 0.0, rng.uniform(0, 360)])
-    la = rng.uniform(35, 88)
+    la = rng.uniform(35, 88) if rad is None else 90.0 - math.degrees(min(rad, 0.9))
     irregular = rng.random() < 0.5
+    jl = 1.0 if rad is None else min(1.0, (90.0 - la) / 10.0)
     f = []
     for k in range(n):
         lo = off + 360.0 * k / n + (rng.uniform(-8, 8) if irregular and (k or off) else 0.0)
-        f.append((lo, la + (rng.uniform(-3, 3) if irregular else 0.0)))
+        f.append((lo, la + (rng.uniform(-3, 3) * jl if irregular else 0.0)))
     if sgn < 0:
         f = [(lo, -l) for lo, l in f][::-1]
-    return [(round(((lo + 180) % 360) - 180, 9), round(l, 9)) for lo, l in f], ("ring-lon0" if off == 0.0 else "ring")
+    return [(round(((lo + 180) % 360) - 180, 13), round(l, 13)) for lo, l in f], ("ring-lon0" if off == 0.0 else "ring")
 
 
-GENS = [("generic", 5), ("bulge", 3), ("meridian", 3), ("pole-corner", 2), ("pole-enclosed", 3)]
+CLASSIC = (None, None, None)
+GENS = [("generic", 5), ("bulge", 2), ("meridian", 3), ("pole-corner", 2), ("pole-enclosed", 3), ("near-pole", 2),
+        ("equator-corner", 2)]
 
 
-def gen_face(rng):
+def gen_face(rng, big_only=False):
     names = [g for g, w in GENS for _ in range(w)]
-    for _ in range(200):
+    for _ in range(400):
         kind = rng.choice(names)
+        size = draw_size(rng, big_only)
         sub = ""
         if kind == "generic":
-            f = gen_generic(rng)
+            f = gen_generic(rng, size)
         elif kind == "bulge":
             f = gen_bulge(rng)
         elif kind == "meridian":
-            f = gen_meridian(rng)
+            f = gen_meridian(rng, size)
+        elif kind == "near-pole":
+            f = gen_near_pole(rng, size)
+        elif kind == "equator-corner":
+            f, sub = gen_equator_corner(rng, size)
         elif kind == "pole-corner":
-            f, sub = gen_pole_corner(rng)
+            f, sub = gen_pole_corner(rng, size)
         else:
-            f, sub = gen_pole_enclosed(rng)
+            f, sub = gen_pole_enclosed(rng, size)
         f = [(float(lo), float(la)) for lo, la in f]
         if admissible(f):
             return rotate(rng, f), kind + ("/" + sub if sub else "")
+        GEN_REJECTS[kind + (":classic" if size[0] is None else ":" + size_bucket(2 * size[0]))] += 1
     raise RuntimeError("generator could not produce an admissible face")
+
+
+from collections import Counter as _Counter
+GEN_REJECTS = _Counter()
 
 
 def gen_directed(rng, n_base):
@@ -260,6 +385,7 @@ PLAIN = dict(dtype="f64", path="topo", lon="pm180", norm=False, R=1.0)
 NP_DTYPE = dict(f64=np.float64, f32=np.float32, i64=np.int64, i32=np.int32, pylist=np.int64)
 TOL32 = 2e-5         # rad: ~170 float32 round-offs (coordinates, xyz and the arc algebra run in float32)
 POLE_MARGIN32 = 1e-3
+SNAP_ZONE = 1.5e-4     # rad: |z| > 1 - ERROR_TOLERANCE  <=>  closer than sqrt(2e-8) = 1.414e-4 rad to a pole
 
 
 def pick_form(rng):
@@ -335,9 +461,9 @@ def lattice_face(rng):
             f = gnomonic(rng, (rng.choice([180.0, 0.0]) + rng.uniform(-3, 3), rng.choice([rng.uniform(-75, 75), rng.uniform(-4, 4)])),
                          rng.randint(3, 7), rng.uniform(0.12, 0.4))
         elif kind == "pole-corner":
-            f, sub = gen_pole_corner(rng)
+            f, sub = gen_pole_corner(rng, CLASSIC)
         else:
-            f, sub = gen_pole_enclosed(rng)
+            f, sub = gen_pole_enclosed(rng, CLASSIC)
         g = []
         for lo, la in f:
             c = (float(((round(lo) + 180) % 360) - 180), float(max(-90, min(90, round(la)))))
@@ -472,22 +598,36 @@ def classify(face, kind):
     on_ref = any(abs(math.sin(math.radians(c[0]))) < 1e-9 and math.cos(math.radians(c[0])) > 0 and not is_pole_corner(c) for c in face)
     # does the boundary cross the reference half-meridian (longitude 0, the arc pole -> (1,0,0) -> pole)?
     crosses = False
+    xs = []
     for i in range(n):
         a, b = P[i], P[(i + 1) % n]
         if a[1] * b[1] <= 0 and not (a[1] == 0 and b[1] == 0):
             t = a[1] / (a[1] - b[1])
             if a[0] + t * (b[0] - a[0]) > 0:
                 crosses = True
-    return dict(pole_corner=pc, enclosed=(not pc and (mn > POLE_MARGIN or ms > POLE_MARGIN)), loc=loc,
+                q = a + t * (b - a)
+                xs.append(q / np.linalg.norm(q))
+    # two crossings of the reference meridian closer than ERROR_TOLERANCE are merged by _unique_points
+    merged = any(float(np.linalg.norm(xs[i] - xs[j])) < 1.5e-8 for i in range(len(xs)) for j in range(i))
+    pm = pole_margin_of(face)
+    colats = [math.atan2(math.hypot(p[0], p[1]), abs(p[2])) for p, c in zip(P, face) if not is_pole_corner(c)]
+    snap = bool(colats) and min(colats) < SNAP_ZONE
+    return dict(snap_zone=snap, diameter=diameter(P), crossings_merged=merged, pole_corner=pc, enclosed=(not pc and (mn > pm or ms > pm)), loc=loc,
                 ref_inside=ref_in, corner_on_ref_meridian=on_ref, crosses_ref_meridian=crosses, kind=kind)
 
 
 def signature(cl, fails, box, tol=TOL):
+    if cl["snap_zone"]:
+        # positions closer than 1.414e-4 rad to a pole are not resolved by the ERROR_TOLERANCE snap of
+        # _xyz_to_lonlat_rad(_scalar): one input class, one cause, whatever clause it breaks
+        return "C13/pole-snap-zone"
     full = abs(box[1][0]) <= tol and abs(box[1][1] - TWO_PI) <= tol
     reports_pole = full and (abs(box[0][1] - math.pi / 2) <= tol or abs(box[0][0] + math.pi / 2) <= tol)
     if reports_pole and not cl["enclosed"] and not cl["pole_corner"]:
         if cl["corner_on_ref_meridian"]:
             return "C13/false-pole/corner-on-ref-meridian"
+        if cl["crossings_merged"]:
+            return "C13/false-pole/crosses-ref-meridian/crossings-closer-than-1e-8"
         return f"C13/false-pole/{cl['loc']}/" + ("crosses-ref-meridian" if cl["crosses_ref_meridian"] else "other")
     if "enclosed_pole" in fails:
         return "C13/pole-missed/" + ("corner-on-ref-meridian" if cl["corner_on_ref_meridian"] else "other")
@@ -505,7 +645,16 @@ def judge(ctx, face, kind, obs, form=None):
     cl = classify(face, kind)
     inp = dict(face=[list(c) for c in face], kind=kind, classes=cl, form=form)
     key = (tuple(map(tuple, face)), tuple(sorted(form.items())))
-    tol, tag = form_tol(form), form_tag(form)
+    P = exact_positions(face, form)
+    diam = diameter(P)
+    # relative tightness: an absolute 1e-9 rad checks nothing on a 1e-7 rad face.  Near a pole the
+    # implementation's arcsin(z) loses digits (conditioning 1/distance-to-pole): float evaluation, absorbed
+    colat = min([math.atan2(math.hypot(p[0], p[1]), abs(p[2])) for p in P if math.hypot(p[0], p[1]) > 1e-12] or [1.0])
+    tol = max(min(TOL, max(1e-12, 1e-6 * diam)), 8e-16 / max(colat, 1e-9))
+    if form["dtype"] == "f32":
+        tol = max(tol, TOL32)
+    tag = form_tag(form)
+    ctx.hit(size_bucket(diam))
     ctx.hit("form:dtype=" + form["dtype"])
     ctx.hit("form:path=" + form["path"])
     ctx.hit("form:lon=" + form["lon"])
@@ -513,7 +662,7 @@ def judge(ctx, face, kind, obs, form=None):
         ctx.hit("form:normalized")
     if form["R"] != 1.0:
         ctx.hit("form:radius!=1")
-    for t in ("pole_corner", "enclosed", "ref_inside", "corner_on_ref_meridian", "crosses_ref_meridian"):
+    for t in ("pole_corner", "enclosed", "ref_inside", "corner_on_ref_meridian", "crosses_ref_meridian", "snap_zone"):
         if cl[t]:
             ctx.hit(t)
     ctx.hit("kind=" + kind)
@@ -526,16 +675,18 @@ def judge(ctx, face, kind, obs, form=None):
     if isinstance(box, Exception):
         ctx.case(key, sample=None)
         miss = "pole-missed/" + ("corner-on-ref-meridian" if cl["corner_on_ref_meridian"] else "other") if cl["enclosed"] else "other"
+        if cl["snap_zone"]:
+            miss = "pole-snap-zone"
         ctx.fail(f"C13/raises/{type(box).__name__}/{miss}{tag}",
                  f"Grid.bounds raises {type(box).__name__}: {box}", inp, repr(box), None, ["raises"])
         return
     ib = [[float(box[0][0]), float(box[0][1])], [float(box[1][0]), float(box[1][1])]]
-    oracle_xyz = exact_positions(face, form)
+    oracle_xyz = P
     if view is None or len(view) != len(face):
         ctx.fail(f"C13/corners/{form['path']}{tag}", f"the grid built from the face has {0 if view is None else len(view)} corners, the face {len(face)}",
                  inp, dict(bounds=ib), None, ["corners"])
         return
-    toks = ["1", str(K), enc_float(tol), enc_float(1e-9), str(len(face))]
+    toks = ["1", str(K), enc_float(tol), enc_float(0.1 * pole_margin_of(face)), str(len(face))]
     for (lo, la, x, y, z) in view:
         toks += [enc_float(v) for v in (lo, la, x, y, z)]
     for p in oracle_xyz:
@@ -551,7 +702,7 @@ def judge(ctx, face, kind, obs, form=None):
     mfails = [c for i, c in enumerate(CLAUSES) if fm >> i & 1]
     ctx.case(key, nontrivial=True, sample=dict(inp, implementation=ib) if len(face) <= 4 else None)
     ctx.hit("model-branch=" + ("pole" if hasN or hasS else "normal"))
-    if poleN > 1e-9 or poleS > 1e-9:
+    if poleN > 0.1 * pole_margin_of(face) or poleS > 0.1 * pole_margin_of(face):
         ctx.hit("oracle:pole-inside")
     lon_w = (ib[1][1] - ib[1][0]) % TWO_PI
     if ib[1][0] > ib[1][1]:
@@ -561,7 +712,7 @@ def judge(ctx, face, kind, obs, form=None):
                  pole_margin_north=poleN, pole_margin_south=poleS)
     if fails:
         sig = signature(cl, fails, ib, tol)
-        if not (sig.startswith("C13/false-pole/") or sig == "C13/pole-missed/corner-on-ref-meridian"):
+        if not (sig.startswith("C13/false-pole/") or sig in ("C13/pole-missed/corner-on-ref-meridian", "C13/pole-snap-zone")):
             sig += tag      # these two do not depend on the precision of the coordinates
         ctx.fail(sig,
                  f"Grid.bounds {ib} violates {fails}; the boundary needs {need} ({kind}, {len(face)} corners, form {form})",
@@ -588,6 +739,8 @@ def judge(ctx, face, kind, obs, form=None):
 def face_ok(face, kind, form):
     f = face[::-1] if kind.endswith("/cw") else face
     if form["dtype"] == "f32":
+        if diameter([xyz_of(*c) for c in f]) < 1e-2:
+            return False        # not representable: float32 resolves ~1e-7 rad
         return admissible(f, pole_margin=POLE_MARGIN32, convex_margin=1e-5)
     return admissible(f)
 
@@ -647,8 +800,17 @@ def run(ctx):
         fm = dict(PLAIN, dtype=dt, path=path, lon=rng.choice(["pm180", "0_360"]))
         run_faces(ctx, [lattice_face(rng) for _ in range(ctx.n(12, 120))], form=fm)
     run_faces(ctx, gen_directed(rng, ctx.n(24, 400)), rng=rng)
-    items = [gen_face(rng) for _ in range(ctx.n(1500, 60000))]
-    run_faces(ctx, items, rng=rng)
+    B = 24
+    for _ in range(ctx.n(1500, 60000) // B):
+        fm = pick_form(rng)
+        if is_int(fm):
+            chunk = [lattice_face(rng) for _ in range(B)]
+        else:
+            chunk = [gen_face(rng, big_only=(fm["dtype"] == "f32")) for _ in range(B)]
+        run_faces(ctx, chunk, form=fm)
+    for k, v in GEN_REJECTS.items():
+        ctx.stats["generator-rejected:" + k] += v
+    GEN_REJECTS.clear()
 
 
 def replay(ctx, rp):
